@@ -485,8 +485,9 @@ static void bind(LeafKey &k)
 	else { k.pk.key.ec.q = k.a.data(); k.pk.key.ec.qlen = k.a.size(); }
 }
 
-enum { KS_REAL = 0, KS_OTHER_SAME_TYPE, KS_WRONG_TYPE, KS_WEAK, KS_BAD_CURVE, KS_NULL, KS_ALTERED, KS_N };
-static const char *KS_NAME[] = { "the peer's key", "another key of the same type", "a key of the other type", "a weak key", "an unsupported curve", "no key", "the peer's key with one bit changed" };
+enum { KS_REAL = 0, KS_OTHER_SAME_TYPE, KS_WRONG_TYPE, KS_WEAK, KS_BAD_CURVE, KS_NULL, KS_ALTERED, KS_HUGE, KS_N };
+static const char *KS_NAME[] = { "the peer's key", "another key of the same type", "a key of the other type", "a weak key", "an unsupported curve", "no key", "the peer's key with one bit changed",
+	"an RSA key larger than the engine's 512-byte work area (a validator of the application's own may return one)" };
 
 static void m3_case(Tape &t)
 {
@@ -525,6 +526,13 @@ static void m3_case(Tape &t)
 	case KS_BAD_CURVE: if (real.pk.key_type == BR_KEYTYPE_EC) use.pk.key.ec.curve = t.pick<int>({ 0, 22, 26, 29, 31 }); else ks = KS_REAL; break;
 	case KS_NULL: spy.null_key = true; break;
 	case KS_ALTERED: use.a[use.a.size() / 2] ^= 0x04; break;
+	case KS_HUGE: {
+		size_t nl = t.pick<size_t>({ 513, 516, 520, 640, 1024, 2048 });
+		use.pk.key_type = BR_KEYTYPE_RSA;
+		use.a.assign(nl, 0xB7); use.a[0] = 0xC1; use.a.back() |= 1;
+		use.b = { 1, 0, 1 };
+		break;
+	}
 	}
 	bind(use);
 	spy.key = use.pk;
